@@ -254,6 +254,13 @@ type LogBuf struct {
 	Lines []string
 }
 
+// Snapshot returns a copy of the captured log lines.
+func (l *LogBuf) Snapshot() []string {
+	l.mu.Lock()
+	defer l.mu.Unlock()
+	return append([]string(nil), l.Lines...)
+}
+
 func (l *LogBuf) Write(p []byte) (int, error) {
 	l.mu.Lock()
 	if len(l.Lines) < 4000 {
